@@ -303,9 +303,25 @@ def handle (op : String) (c i : Json) : Except String (Json × String) := do
     if J.isNull (J.keyD c "ecus" Json.null) then
       pure (J.obj [("core", J.ofStrList ((writeCore fs).map String.ofList))], "ok")
     else
+      let pairsOf (j : Json) : Except String (List (Str × Str)) := do
+        (← J.arr j).mapM fun e => do pure ((← J.str (← J.idx e 0)).toList, (← J.str (← J.idx e 1)).toList)
       let es ← (← J.arr (← J.key c "ecus")).mapM fun ej => do
-        pure ({ name := (← J.str (← J.key ej "name")).toList, comment := ← optStr (← J.key ej "comment") } : WEcu)
-      pure (J.obj [("core", J.ofStrList ((writeCoreE es fs).map String.ofList))], "ok")
+        let at_ := J.keyD ej "attrs" Json.null
+        let ats ← if J.isNull at_ then pure [] else pairsOf at_
+        pure ({ name := (← J.str (← J.key ej "name")).toList, comment := ← optStr (← J.key ej "comment"), attrs := ats } : WEcu)
+      -- with "defs", "defaults", "gattrs" the attribute definitions, their defaults, the attributes of the ECUs and of the matrix (writeCoreD)
+      if J.isNull (J.keyD c "defs" Json.null) then
+        pure (J.obj [("core", J.ofStrList ((writeCoreE es fs).map String.ofList))], "ok")
+      else
+        let ds ← (← J.arr (← J.key c "defs")).mapM fun dj => do
+          let lvl ← match (← J.str (← J.key dj "level")) with
+            | "ecu" => pure Level.ecu | "frame" => pure Level.frame | "signal" => pure Level.signal | "env" => pure Level.env
+            | "global" => pure Level.global | x => throw s!"bad level {x}"
+          pure ({ level := lvl, name := (← J.str (← J.key dj "name")).toList, definition := (← J.str (← J.key dj "definition")).toList } : DefLine)
+        let dds ← (← J.arr (← J.key c "defaults")).mapM fun dj => do
+          pure ({ name := (← J.str (← J.key dj "name")).toList, isText := ← J.bool (← J.key dj "text"), value := (← J.str (← J.key dj "value")).toList } : DefDefLine)
+        let ga ← pairsOf (← J.key c "gattrs")
+        pure (J.obj [("core", J.ofStrList ((writeCoreD es ds dds ga fs).map String.ofList))], "ok")
   | "post" =>
     -- i = {"lines": the lines of a file, "final": the projection of the matrix dbc.load returns (names, senders, receivers, comments,
     -- attributes that are neither carriers nor ENUM)}
